@@ -43,7 +43,14 @@ def flatten(chain: list, data: dict) -> str:
 
     active: list = []
 
-    def render(items, env: dict, name=None, k: int = 0) -> str:
+    def blank(items) -> bool:
+        # the body of a control-flow or block tag that holds nothing but whitespace text renders nothing
+        # (Environment.suppress_blank_control_flow_blocks, on by default); a block tag itself is never blank
+        return bool(items) and all(x[0] == "text" and not x[1].strip() for x in items)
+
+    def render(items, env: dict, name=None, k: int = 0, body: bool = False) -> str:
+        if body and blank(items):
+            return ""
         out = []
         for it in items:
             op = it[0]
@@ -54,7 +61,7 @@ def flatten(chain: list, data: dict) -> str:
                 out.append("" if v is None else str(v))
             elif op == "loop":
                 for i in (1, 2):
-                    out.append(render(it[1], {**env, "i": i}, name, k))
+                    out.append(render(it[1], {**env, "i": i}, name, k, body=True))
             elif op == "block":
                 d = defs[it[1]][0]
                 if d[2]:
@@ -62,11 +69,11 @@ def flatten(chain: list, data: dict) -> str:
                 if it[1] in active:
                     raise Recursive(it[1])
                 active.append(it[1])
-                out.append(render(d[3], env, it[1], 0))
+                out.append(render(d[3], env, it[1], 0, body=True))
                 active.pop()
             elif op == "super":
                 if name is not None and k + 1 < len(defs[name]):
-                    out.append(render(defs[name][k + 1][3], env, name, k + 1))
+                    out.append(render(defs[name][k + 1][3], env, name, k + 1, body=True))
         return "".join(out)
 
     root = chain[-1]
